@@ -635,3 +635,87 @@ def inline_body_aggregate(ctx):
         )
     ctx.cover("some-unfolding-path", [z3.BoolVal(n_changed > 0)])
     ctx.inputs.clear()
+
+
+@unit("C15.is_single", "C15", "ngo.inline:InlineTranslator.is_single", fallback=FB15)
+def is_single(ctx):
+    """a statement is only reported as an unfoldable aggregate-defining rule (result = position of the value in the
+    head) if it is a rule whose head is a positive atom over plain, pairwise distinct variables (as many distinct variables as arguments), its
+    predicate is neither an input nor an
+    output nor static, it is the only rule deriving that predicate, exactly one OTHER statement uses the predicate
+    and does so without anonymous variables, the rule contains exactly one body aggregate, that aggregate has exactly
+    one `=` guard and no other bound, and the head argument at the reported position is the variable bound by it.
+    (These are the preconditions the contracts of inline_body_aggregate / inline_minimize rely on.)"""
+    m, ex = ctx.m, ctx.ex
+    wf = wf_of(ctx)
+    A = m.AST
+    S = m.enums["Sign"][1]
+    st = ctx.state()
+    ln, at = m.lst_funcs("ast")
+    stm = ctx.sym("stm", "ast")
+    st.assume(wf.wf("statement", stm.term, 3))
+    collect = install_collect_ast(ctx)
+    eqv, bnd = _install_agg_analytics(ctx)
+    ex.functional_lists = True
+    ex.resolve_ctors = True
+    PRED = ("rec", "Predicate")
+    inp_ref, inp = ctx.sym_list(st, "input_predicates", PRED)
+    out_ref, outp = ctx.sym_list(st, "output_predicates", PRED)
+    static = ex.ufunc("is_static", [m.sort(PRED)], z3.BoolSort())
+    derive = ex.ufunc("rules_that_derive", [m.sort(PRED)], m.sort(LA))
+    use = ex.ufunc("statements_that_use", [m.sort(PRED)], m.sort(LA))
+    anon = ex.ufunc("has_anonymous_vars", [m.sort(PRED), m.sort(LA)], z3.BoolSort())
+
+    def pred_of(a):
+        return a[-1] if isinstance(a[-1], SV) else a[1]
+
+    ex.overrides["ngo.dependency:DomainPredicates.is_static"] = lambda e, s, a, k: [(s, SV(static(e.to_term(s, a[1], PRED)), "bool"))]
+    ex.overrides["ngo.dependency:RuleDependency.get_rules_that_derive"] = lambda e, s, a, k: [(s, s.alloc(ListObj(sv=SV(derive(e.to_term(s, a[1], PRED)), LA))))]
+    ex.overrides["ngo.dependency:RuleDependency.get_statements_that_use"] = lambda e, s, a, k: [(s, s.alloc(ListObj(sv=SV(use(e.to_term(s, a[1], PRED)), LA))))]
+
+    def hav(e, s, a, k):
+        args = [x for x in a if not (isinstance(x, Ref) and isinstance(s.heap.get(x.id), Obj))]
+        return [(s, SV(anon(e.to_term(s, args[0], PRED), e.to_term(s, args[1], LA)), "bool"))]
+
+    ex.overrides["ngo.inline:InlineTranslator.has_anonymous_vars"] = hav
+    p_, i_ = z3.Const("p!use", m.sort(PRED)), z3.Int("i!use")
+    m.global_axioms.append(z3.ForAll([p_, i_], z3.Implies(z3.And(0 <= i_, i_ < ln(use(p_))), z3.Or(A.is_Rule(at(use(p_), i_)), A.is_Minimize(at(use(p_), i_)))), patterns=[at(use(p_), i_)]))
+    ctx.assume_note("RuleDependency.get_rules_that_derive / get_statements_that_use, DomainPredicates.is_static and has_anonymous_vars are uninterpreted; assumed from RuleDependency.__init__: only rules and objective statements are recorded as users of a predicate")
+    q0 = z3.Int("q!wfa")
+    hargs0 = A.Function_arguments(A.SymbolicAtom_symbol(A.Literal_atom(A.Rule_head(stm.term))))
+    # arguments of a function term are terms (never None): part of well-formedness, stated where the code needs it
+    st.assume(z3.ForAll([q0], z3.Implies(z3.And(0 <= q0, q0 < ln(hargs0)), at(hargs0, q0) != m.NoneAST), patterns=[at(hargs0, q0)]))
+    dp = ctx.new_object(st, "DomainPredicates")
+    rdp = ctx.new_object(st, "RuleDependency")
+    me = ctx.new_object(st, "InlineTranslator", input_predicates=inp_ref, output_predicates=out_ref, domain_predicates=dp)
+    res = ctx.call(st, ctx.method("ngo.inline", "InlineTranslator", "is_single", me), [stm, rdp])
+    ok, bad = returned(res)
+    ctx.cover("reach", st)
+    no_raise(ctx, "no-raise", res, kind="assert")
+    head = A.Rule_head(stm.term)
+    hsym = A.SymbolicAtom_symbol(A.Literal_atom(head))
+    hargs = A.Function_arguments(hsym)
+    hpred = m.rec_ctor("Predicate")(A.Function_name(hsym), ln(hargs))
+    lnP, atP = m.lst_funcs(PRED)
+    lnS, atS = m.lst_funcs("str")
+    aggs = collect("BodyAggregate")(stm.term)
+    agg = at(aggs, 0)
+    q = z3.Int("q!is")
+    n_pos = 0
+    for n, (s, r) in enumerate(ok):
+        if r is None:
+            continue
+        n_pos += 1
+        rt = ex.to_term(s, r, "int")
+        posts = [
+            ("rule-with-a-positive-atom-over-variables-as-head", z3.And(A.is_Rule(stm.term), A.is_Literal(head), A.Literal_sign(head) == S["NoSign"], A.is_SymbolicAtom(A.Literal_atom(head)), A.is_Function(hsym), z3.ForAll([q], z3.Implies(z3.And(0 <= q, q < ln(hargs)), A.is_Variable(at(hargs, q)))))),
+            ("head-variables-pairwise-distinct", ex.ufunc("distinct_count_ast", [m.sort(LA)], z3.IntSort())(collect("Variable")(hsym)) == ln(hargs)),
+            ("not-an-interface-or-static-predicate", z3.And(z3.Not(static(hpred)), z3.ForAll([q], z3.Implies(z3.And(0 <= q, q < lnP(inp.term)), atP(inp.term, q) != hpred)), z3.ForAll([q], z3.Implies(z3.And(0 <= q, q < lnP(outp.term)), atP(outp.term, q) != hpred)))),
+            ("one-deriving-rule-one-other-user-without-anonymous-variables", z3.And(ln(derive(hpred)) == 1, ln(use(hpred)) == 1, at(use(hpred), 0) != stm.term, z3.Not(anon(hpred, z3.If(A.is_Rule(at(use(hpred), 0)), A.Rule_body(at(use(hpred), 0)), A.Minimize_body(at(use(hpred), 0))))))),
+            ("one-body-aggregate-with-one-equality-guard", z3.And(ln(aggs) == 1, lnS(eqv(agg)) == 1, ln(bnd(agg)) == 0)),
+            ("reported-position-holds-the-value-variable", z3.And(0 <= rt, rt < ln(hargs), at(hargs, rt) == A.Variable(atS(eqv(agg), 0)))),
+        ]
+        for nm, g in posts:
+            ctx.oblige(f"post-{nm}#{n}", s, g, replay=FB15)
+    ctx.cover("some-candidate-path", [z3.BoolVal(n_pos > 0)])
+    ctx.inputs.clear()
